@@ -1,6 +1,7 @@
 """C19 - failures of the caller's stream or callbacks pass through cleanly (Py leg).
 The fault point (index of the failing read / write / flush / callback invocation) and the
 kind of exception are solver variables."""
+import copy
 import yaml
 import yaml.reader
 from symex.hlib import Job, reach, fail, exc_sig, not_a_finding, pick, untraced
@@ -172,6 +173,10 @@ def read_fault(di: int, form: int, big: bool, k: int, kind: int, api: int) -> st
         return fail(P, 'SWALLOWED the exception raised by read() number %d never reached the caller' % fail_at, kind=kind)
     if got is not exc:
         return fail(P, 'REWRAPPED read() raised %s, the caller got %s' % (type(exc).__name__, type(got).__name__), kind=kind)
+    with untraced():
+        d = diff_snapshot(before, global_snapshot())
+    if d:
+        return fail(P, 'AFTERMATH global state right after the failed call ' + d, kind=kind)
     try:
         if not _reference_ok():
             return fail(P, 'AFTERMATH the next call misbehaves after a failed read', kind=kind)
@@ -211,8 +216,23 @@ class FaultyOut:
 VALUES = [{'items': [1, 2], 'name': 'x'}, ['a', ['b', {'c': None}]], 'plain', {'k': 'multi\nline\n'}, [{'é': 1.5}], 'y' * 100]
 
 
+def _later(v):
+    """the caller goes on working with the value after the failed dump"""
+    if isinstance(v, list):
+        v.append('added later')
+        if v and isinstance(v[0], dict):
+            v[0]['added later'] = 1
+    elif isinstance(v, dict):
+        v['zz added later'] = [3]
+        for x in v.values():
+            if isinstance(x, list):
+                x.append('added later')
+
+
 def write_fault(vi: int, k: int, on_flush: bool, kind: int, api: int, many: bool) -> str:
-    v = pick(vi, VALUES)
+    v0 = pick(vi, VALUES)
+    with untraced():
+        v = copy.deepcopy(v0)       # this path's own objects: they are modified below
     docs = [v, v] if many else [v]
     exc = make_exc(kind)
 
@@ -250,11 +270,32 @@ def write_fault(vi: int, k: int, on_flush: bool, kind: int, api: int, many: bool
         return fail(P, 'REWRAPPED the stream raised %s, the caller got %s' % (type(exc).__name__, type(got).__name__), kind=kind)
     if not full.startswith(out.text()):
         return fail(P, 'PREFIX what was written before the fault is not a prefix of the fault-free output', kind=kind)
+    with untraced():
+        d = diff_snapshot(before, global_snapshot())
+    if d:
+        return fail(P, 'AFTERMATH global state right after the failed call ' + d, kind=kind)
     again = FaultyOut(-1, -1, None)
     try:
         run(again)
         if again.text() != full or not _reference_ok():
             return fail(P, 'AFTERMATH the next dump differs after a failed write', kind=kind)
+        # the same objects, modified after the failure, are dumped as they are now (nothing remembered from the failed call)
+        out2 = FaultyOut(fail_at if not on_flush else -1, fail_at if on_flush else -1, make_exc(kind))
+        try:
+            run(out2)
+        except BaseException:   # noqa
+            pass
+        _later(v)
+        with untraced():
+            fresh = copy.deepcopy(v)
+        third = FaultyOut(-1, -1, None)
+        run(third)
+        v = fresh
+        docs = [v, v] if many else [v]
+        want = FaultyOut(-1, -1, None)
+        run(want)
+        if third.text() != want.text():
+            return fail(P, 'AFTERMATH a value modified after a failed dump is dumped as it was during the failed call', kind=kind)
     except Exception as e:
         return fail(P, 'AFTERMATH the next call raises ' + exc_sig(e), kind=kind)
     with untraced():
@@ -314,11 +355,13 @@ def callback_fault(k: int, kind: int, side: int) -> str:
         before = global_snapshot()
     got = None
     out = FaultyOut(-1, -1, None)
+    b1 = Boom(1)
+    data = [b1, {'k': BoomStr('2')}, [BoomInt(3), Boom(4)], b1]
     try:
         if side == 0:
             yaml.load('- !boom 1\n- {k: !boom 2}\n- [!boom 3, !boom 4]\n', Loader=L)
         else:
-            yaml.dump([Boom(1), {'k': BoomStr('2')}, [BoomInt(3), Boom(4)]], out, Dumper=D)
+            yaml.dump(data, out, Dumper=D)
     except BaseException as e:    # noqa
         got = e
     reach()
@@ -326,11 +369,25 @@ def callback_fault(k: int, kind: int, side: int) -> str:
         return 'ok' if got is None else fail(P, 'callback run without fault raised ' + type(got).__name__, kind=kind)
     if got is not exc:
         return fail(P, 'REWRAPPED or swallowed: callback raised %s, the caller got %r' % (type(exc).__name__, type(got).__name__), kind=kind)
+    with untraced():
+        d = diff_snapshot(before, global_snapshot())
+    if d:
+        return fail(P, 'AFTERMATH global state right after the failed call ' + d, kind=kind)
     if side == 1:
+        # the caller retries with the very same objects (one of them changed in the meantime)
         ok_out = FaultyOut(-1, -1, None)
         counter['n'] = 100
-        yaml.dump([Boom(1), {'k': BoomStr('2')}, [BoomInt(3), Boom(4)]], ok_out, Dumper=D)
-        if not ok_out.text().startswith(out.text()):
+        b1.n = 7
+        yaml.dump(data, ok_out, Dumper=D)
+        b2 = Boom(7)
+        want = FaultyOut(-1, -1, None)
+        yaml.dump([b2, {'k': BoomStr('2')}, [BoomInt(3), Boom(4)], b2], want, Dumper=D)
+        if ok_out.text() != want.text():
+            return fail(P, 'AFTERMATH retrying the dump of the same objects after a failed representer gives another text than dumping equal fresh objects', kind=kind)
+        b1.n = 1
+        first = FaultyOut(-1, -1, None)
+        yaml.dump(data, first, Dumper=D)
+        if not first.text().startswith(out.text()):
             return fail(P, 'PREFIX output written before the callback fault is not a prefix of the fault-free output', kind=kind)
     try:
         if not _reference_ok():
